@@ -130,7 +130,10 @@ LEVEL_TEXT = ("Proof: for all byte strings the literal written by strquote.Appen
               "histories of Encode calls on one encoder the next Encode writes what a fresh encoder writes. The models "
               "are tied to strquote, encoding/text, list.go and nodemap by differential runs (extracted OCaml vs the "
               "Go code, incl. the exact remaining budget of the cached schema message).")
-LEVEL_NOTE = ("Trusted: Coq kernel, extraction, harness; the models are hand-written. Floats are opaque tokens (strconv 'g' "
+LEVEL_NOTE = ("C01/C02 clause for the renderer (round 2): hostile-message and recursive-type runs with impl_violation; totality "
+              "of the walk is proved only for structs without struct/list/group fields (C20_render_total_flat_partial, an "
+              "extra theorem outside C20's own statement); the pre-fix divergence is render_total_refuted. "
+              "Trusted: Coq kernel, extraction, harness; the models are hand-written. Floats are opaque tokens (strconv 'g' "
               "not modelled; parse_render is stated for float-free schemas, history independence for all). Decimal "
               "printing is Coq's Z.to_int. The value message's own traversal budget is reset by the harness before "
               "every Encode (not the subject of C20).")
